@@ -188,6 +188,21 @@ VARIANTS = [
     V("twin: normalised strategy tested through a local flag", ("C19",), "", "core.py", '    if reindex_.blockwise is True and not all_eager:', '    wants_blockwise = reindex_.blockwise is True\n    if wants_blockwise and not all_eager:', expect="silent"),
     V("finalizer re-indexes the un-cast value with the user's fill", ("C05", "C11"), "R-FILLCAST", "core.py", '            finalized[agg.name].astype(agg.dtype["final"], copy=False),\n            squeezed["groups"],', '            finalized[agg.name],\n            squeezed["groups"],', must_mention="fill_value=-1"),
     V("twin: final cast as a statement before the finalizer's reindex (and again at the end)", ("C05", "C11"), "", "core.py", '    # Final reindexing has to be here to be lazy\n    if not reindex.blockwise and expected_groups is not None:\n        # the final dtype has room for the user\'s fill value (e.g. any/all or count with a negative or fractional fill): cast first\n        finalized[agg.name] = reindex_(\n            finalized[agg.name].astype(agg.dtype["final"], copy=False),', '    finalized[agg.name] = finalized[agg.name].astype(agg.dtype["final"], copy=False)\n    if not reindex.blockwise and expected_groups is not None:\n        finalized[agg.name] = reindex_(\n            finalized[agg.name],', expect="silent"),
+    V("variance shift only widens unsigned input", ("C20", "C01"), "R-VARSHIFT[width]", "aggregate_npg.py", '    dtype = np.float64 if array.dtype.kind in "iub" else array.dtype', '    dtype = np.result_type(array, np.int8(-1) * array[0])', must_mention="int8"),
+    V("variance shift widens integers to the next signed size only up to 32 bits", ("C20", "C01"), "R-VARSHIFT[width]", "aggregate_npg.py", '    dtype = np.float64 if array.dtype.kind in "iub" else array.dtype', '    dtype = np.result_type(array.dtype, np.int64) if array.dtype.kind in "iub" else array.dtype', must_mention="i8"),
+    V("twin: integers promoted with float64", ("C20", "C01"), "", "aggregate_npg.py", '    dtype = np.float64 if array.dtype.kind in "iub" else array.dtype', '    dtype = np.result_type(array.dtype, np.float64) if array.dtype.kind in "iub" else array.dtype', expect="silent"),
+    V("numbagg wrapper no longer widens integer data before accumulating", ("C20", "C01"), "R-ACCFORWARD", "aggregate_numbagg.py", '    if dtype is not None and array.dtype.kind in "iub" and func in ACCUMULATES:\n        array = array.astype(np.result_type(array.dtype, dtype), copy=False)\n', '', must_mention="accumulates in the dtype of the data"),
+    V("numbagg wrapper widens sums only, not products or counts", ("C20", "C01"), "R-ACCFORWARD", "aggregate_numbagg.py", 'ACCUMULATES = ("nansum", "nanprod", "nansum_of_squares", "nancount")', 'ACCUMULATES = ("nansum", "nansum_of_squares")', must_mention="nanprod"),
+    V("numbagg count wrapper drops its dtype", ("C20", "C01"), "R-ACCFORWARD", "aggregate_numbagg.py", '        func="nancount",\n        # fill_value=fill_value,\n        dtype=dtype,\n', '        func="nancount",\n        # fill_value=fill_value,\n        # dtype=dtype,\n', must_mention="nanlen"),
+    V("twin: accumulating kernels listed inline", ("C20", "C01"), "", "aggregate_numbagg.py", 'and func in ACCUMULATES:', 'and func in ("nansum", "nanprod", "nansum_of_squares", "nancount"):', expect="silent"),
+    V("flox engine squares in the input dtype", ("C20",), "R-ACCFORWARD", "aggregate_flox.py", '    if dtype is not None:\n        # square in the accumulation dtype: the squares of int8 values do not fit int8\n        array = array.astype(np.result_type(array.dtype, dtype), copy=False)\n    return sum(\n        group_idx,\n        array**2,', '    return sum(\n        group_idx,\n        array**2,', must_mention="squares"),
+    V("twin: flox engine squares a widened copy bound to the same name", ("C20",), "", "aggregate_flox.py", '        array = array.astype(np.result_type(array.dtype, dtype), copy=False)\n    return sum(\n        group_idx,\n        array**2,', '        array = array.astype(np.promote_types(array.dtype, dtype))\n    return sum(\n        group_idx,\n        array**2,', expect="silent"),
+    V("numpy re-indexer gathers with the inverse lookup", ("C16", "C05"), "R-INDEXDIR", "core.py", '    idx = from_.get_indexer(to)\n    indexer = [slice(None, None)] * array.ndim', '    idx = to.get_indexer(from_)\n    indexer = [slice(None, None)] * array.ndim', must_mention="inverse"),
+    V("twin: target labels wrapped before the lookup", ("C16", "C05"), "", "core.py", '    idx = from_.get_indexer(to)\n    indexer = [slice(None, None)] * array.ndim', '    idx = from_.get_indexer(pd.Index(to))\n    indexer = [slice(None, None)] * array.ndim', expect="silent"),
+    V("interpolation writes into a copy=False cast of its own operand", ("C18",), "R-OUTALIAS", "aggregate_flox.py", '    if out is None:\n        out = np.empty_like(a, dtype=dtype)\n    with np.errstate(invalid="ignore"):\n        diff_b_a = np.subtract(b, a)\n', '    with np.errstate(invalid="ignore"):\n        diff_b_a = np.subtract(b, a)\n    if out is None:\n        out = diff_b_a.astype(dtype, copy=False)\n', must_mention="diff_b_a"),
+    V("twin: interpolation writes into a copying cast of its operand", ("C18",), "", "aggregate_flox.py", '    if out is None:\n        out = np.empty_like(a, dtype=dtype)\n    with np.errstate(invalid="ignore"):\n        diff_b_a = np.subtract(b, a)\n', '    with np.errstate(invalid="ignore"):\n        diff_b_a = np.subtract(b, a)\n    if out is None:\n        out = diff_b_a.astype(dtype, copy=True)\n', expect="silent"),
+    V("grouper transposed with an inline inverse permutation", ("C07", "C08"), "R-PAIRS[transpose]", "xarray.py", '        order = [dims.index(d) for d in core_dims[0] if d in dims]\n        array = array.transpose(*order)', '        target = [d for d in core_dims[0] if d in dims]\n        array = array.transpose(*(target.index(d) for d in dims))', must_mention="inverse"),
+    V("twin: forward permutation written inline", ("C07", "C08"), "", "xarray.py", '        order = [dims.index(d) for d in core_dims[0] if d in dims]\n        array = array.transpose(*order)', '        array = array.transpose(*[dims.index(d) for d in core_dims[0] if d in dims])', expect="silent"),
     V("dtype promotion memoised with an untyped key", ("C14",), "R-MEMO", "xrdtypes.py", '        dtype = np.result_type(dtype, fill_value)\n    return dtype\n',
       '        dtype = _promote_for_fill_value(dtype, fill_value)\n    return dtype\n\n\n@functools.lru_cache\ndef _promote_for_fill_value(dtype: np.dtype, fill_value) -> np.dtype:\n    return np.result_type(dtype, fill_value)\n', must_mention="typed"),
     V("twin: dtype promotion memoised with typed=True", ("C14",), "", "xrdtypes.py", '        dtype = np.result_type(dtype, fill_value)\n    return dtype\n',
